@@ -229,7 +229,7 @@ def today_with_clock(case):
     for step, (ymd, touch) in enumerate(zip(case['dates'], case['touch'])):
         clock['now'] = ymd
         if touch:
-            ex.set_cells([wbk.Cell('S', 'A', '1', step)])
+            wbk.outcome(lambda: ex.set_cells([wbk.Cell('S', 'A', '1', step)]))
         o = wbk.outcome(lambda: ex.get_cell(wbk.Cell('S', ADDR['TODAY'], '1')).value)
         exp = DT(*ymd)
         if not (o[0] == 'value' and isinstance(o[1], real.datetime) and o[1] == exp) and o[0] != 'timeout':
